@@ -182,6 +182,11 @@ func C02real(r *ev.Report) {
 func init() {
 	Parts["C02real"] = Part{"C02", C02real}
 	Replayers["C02"] = func(c Case) (bool, string) {
+		switch c["op"] {
+		case "bin", "equals", "unary", "predicate", "neighbour", "sqrt", "parse", "wide":
+			return Replayers["C12"](c)
+		}
+
 		if c["op"] == "persist" {
 			return Replayers["C10"](c)
 		}
